@@ -451,6 +451,29 @@ func c11HasherErrors(run *mon.Run, r *rand.Rand) {
 				run.Violate("C11:short-hasher:"+a.n, fmt.Sprintf("%d-byte hasher: Sign err %v, Verify (%v,%v)", sz, e1, ok, e2), nil)
 			}
 		}
+		// ... whatever algorithm the short hasher says it is (a truncating wrapper around a standard hasher
+		// keeps the standard label), and a hasher of 32 bytes or more is usable whatever its label
+		for _, alg := range []hash.HashingAlgorithm{hash.UnknownHashingAlgorithm, hash.SHA2_256, hash.SHA2_384, hash.SHA3_256, hash.SHA3_384, hash.KMAC128, hash.Keccak_256, hash.HashingAlgorithm(-1), hash.HashingAlgorithm(99)} {
+			for _, sz := range []int{0, 1, 20, 28, 31} {
+				h := newLabelledHasher(alg, sz)
+				_, e1 := sk.Sign([]byte("m"), h)
+				ok, e2 := sk.PublicKey().Verify(sig, []byte("m"), h)
+				run.Eval(2)
+				if !crypto.IsInvalidHasherSizeError(e1) || ok || !crypto.IsInvalidHasherSizeError(e2) {
+					run.Violate("C11:short-hasher:labelled:"+a.n, fmt.Sprintf("%d-byte hasher announcing algorithm %v: Sign err %v, Verify (%v,%v)", sz, alg, e1, ok, e2), map[string]any{"algorithm_label": int(alg), "size": sz})
+				}
+			}
+			for _, sz := range []int{32, 33, 48, 64} {
+				h := newLabelledHasher(alg, sz)
+				s1, e1 := sk.Sign([]byte("labelled"), h)
+				ok, e2 := sk.PublicKey().Verify(s1, []byte("labelled"), h)
+				ok2, _ := sk.PublicKey().Verify(s1, []byte("labelled-other"), h)
+				run.Eval(3)
+				if e1 != nil || e2 != nil || !ok || ok2 {
+					run.Violate("C11:labelled-hasher:"+a.n, fmt.Sprintf("%d-byte hasher announcing algorithm %v: Sign err %v, Verify own (%v,%v), Verify other message %v", sz, alg, e1, ok, e2, ok2), map[string]any{"algorithm_label": int(alg), "size": sz})
+				}
+			}
+		}
 		// the hasher is refused whatever the signature looks like
 		for _, wl := range [][]byte{nil, {}, make([]byte, 63), make([]byte, 65), make([]byte, 32), make([]byte, 128)} {
 			ok, e := sk.PublicKey().Verify(wl, []byte("m"), nil)
